@@ -100,18 +100,30 @@ func VH_C20_Isolation() {
 
 	// actor 1: a non-system observer; actor 2: a system observer (sees everything it is given)
 	var seen1, seen2 *pokertable.Table
-	mk := func(system bool, sink **pokertable.Table) *tableEngineAdapter {
+	mk := func(system bool, sink **pokertable.Table, runnerFirst bool) *tableEngineAdapter {
 		a := NewActor()
-		ad := NewTableEngineAdapter(nil, nil)
-		a.SetAdapter(ad)
+		// the adapter is built with the engine's live table, as the engine's users do
+		ad := NewTableEngineAdapter(nil, engineTable)
 		obr := NewObserverRunner()
 		obr.EnabledSystemMode(system)
 		obr.OnTableStateUpdated(func(x *pokertable.Table) { *sink = x })
-		a.SetRunner(obr)
+		// either wiring order (a spectator may be attached while a hand is in play)
+		if runnerFirst {
+			a.SetRunner(obr)
+			a.SetAdapter(ad)
+		} else {
+			a.SetAdapter(ad)
+			a.SetRunner(obr)
+		}
 		return ad
 	}
-	ad1 := mk(false, &seen1)
-	ad2 := mk(true, &seen2)
+	ad1 := mk(false, &seen1, verifrt.Bool("runnerFirst1"))
+	ad2 := mk(true, &seen2, verifrt.Bool("runnerFirst2"))
+	verifrt.Assert(verifrt.SameState(snap, engineTable), "wiring an actor leaves the engine's table as it was")
+	verifrt.Assert(seen1 != engineTable && seen2 != engineTable, "wiring never hands the engine's own table object to a runner")
+	if seen1 != nil {
+		verifrt.Assert(verifrt.Disjoint(seen1, engineTable), "whatever a runner is shown while being wired shares no memory with the engine's table")
+	}
 	first := verifrt.Bool("observerFirst")
 	var e1, e2 error
 	if first {
